@@ -10,7 +10,7 @@ import types
 import typing as t
 
 from vlib.cond import Cond
-from vlib.prelude import SYMBOLIC, Chooser, NoTracing, reached
+from vlib.prelude import SYMBOLIC, Chooser, NoTracing, attempt, reached
 
 META = {
     "functions": ["typelib.graph.static_order", "typelib.graph.itertypes", "typelib.graph.get_type_graph", "typelib.graph._level",
@@ -155,7 +155,7 @@ def check_order(root_T, nodes, members, label):
             # every node flagged cyclic is a revisit: the type it stands for is converted elsewhere in the order
             # and it denotes exactly a direct member (same field) of a later node, parameters included
             owners = [(var, M) for later in nodes[i + 1:] if not is_deferred(later)
-                      for var, M in members_of(later.type, members) if var == nd.var]
+                      for var, M in members_of(later.type, members) if var == nd.var or var is None]  # generic arguments carry no field name of their own
             if not any(_same_type(den, M) for _, M in owners):
                 return ("deferred_denotes_wrong_type:" + _ref_class(nd), label, _d(nd, den, owners))
             if _key(den) not in regular:
@@ -383,6 +383,91 @@ def make_catalogue(timeout):
     return Cond("catalogue/invariants", [("c0", int)], body, mode="E3", timeout=timeout)
 
 
+def make_repeats(timeout):
+    """A subscripted annotation reached twice in one graph (with any arity, including the empty tuple): full invariants,
+    in particular every deferred node denotes exactly the annotation it stands for."""
+    gens = [tuple[()], tuple[int], tuple[int, ...], list[int], dict[str, int], t.Optional[int], int | None, frozenset[str],
+            t.Tuple[()], t.List[int], tuple[tuple[()], int], list[tuple[()]]]
+
+    def body(c0: int, c1: int):
+        from typelib import graph
+
+        from vlib import caches
+
+        ch = Chooser((c0, c1))
+        with NoTracing():
+            G = ch.choose(gens)
+            form = ch.pick(4)
+            caches.clear_all()
+            if form == 0:
+                T, members = dict[G, G], {}
+            elif form == 1:
+                T, members = tuple[G, list[G]], {}
+            elif form == 2:
+                cls = dataclasses.make_dataclass("Two", [("a", G), ("b", G)])
+                T, members = cls, {cls: [("a", G), ("b", G)]}
+            else:
+                inner = dataclasses.make_dataclass("Inner", [("a", G)])
+                cls = dataclasses.make_dataclass("Outer", [("a", G), ("i", inner)])
+                T, members = cls, {cls: [("a", G), ("i", inner)], inner: [("a", G)]}
+            reached()
+            try:
+                hash(G)
+            except TypeError:
+                return None
+            try:
+                nodes = [*graph.itertypes(T)]
+            except Exception as e:  # noqa: BLE001
+                return ("graph_raised:" + type(e).__name__, "repeats", _d(T, e))
+            r = check_order(T, nodes, members, "repeats")
+            if r is not None:
+                return (r[0], "repeats", _d(T, r[2]))
+        return None
+
+    return Cond("repeats/subscripted_twice", [("c0", int), ("c1", int)], body, mode="E3", timeout=timeout)
+
+
+def make_late(timeout):
+    """A graph asked for while a referenced class is not defined yet must not freeze that answer: once the module is
+    complete, the graph (through another root) has a node for the class and everything below it."""
+
+    def body(c0: int):
+        from typelib import graph
+
+        from vlib import caches
+
+        ch = Chooser((c0,))
+        with NoTracing():
+            caches.clear_all()
+            _COUNTER[0] += 1
+            mod = types.ModuleType(f"c09_late_{_COUNTER[0]}")
+            sys.modules[mod.__name__] = mod
+            try:
+                src = ("import dataclasses\n@dataclasses.dataclass\nclass Order:\n    customer: 'Customer'\n    n: 'int'\n")
+                exec(src, mod.__dict__)  # noqa: S102
+                early = ch.pick(3)
+                if early == 1:
+                    attempt(lambda: [*graph.itertypes(mod.Order)])          # registration right after the class body
+                elif early == 2:
+                    attempt(lambda: graph.static_order(mod.Order))
+                exec("@dataclasses.dataclass\nclass Customer:\n    name: str\n", mod.__dict__)  # noqa: S102
+                reached()
+                for root in (list[mod.Order], mod.Order):
+                    try:
+                        nodes = [*graph.itertypes(root)]
+                    except Exception as e:  # noqa: BLE001
+                        return ("graph_raised:" + type(e).__name__, "late_definition", _d(early, root, e))
+                    if not any(nd.type is mod.Customer for nd in nodes):
+                        return ("member_missing_after_late_definition", "late_definition", _d(early, root, nodes))
+                    if any(isinstance(nd.type, t.ForwardRef) and not nd.cyclic for nd in nodes):
+                        return ("forward_reference_not_flagged_cyclic", "late_definition", _d(early, root, nodes))
+            finally:
+                sys.modules.pop(mod.__name__, None)
+        return None
+
+    return Cond("late/definition_after_first_walk", [("c0", int)], body, mode="E3", timeout=timeout)
+
+
 def conditions(tier, seed):
     to = 90.0 if tier == "quick" else 300.0
     out = []
@@ -392,4 +477,6 @@ def conditions(tier, seed):
     out += [make_forms(3, ka, to) for ka in range(5)]
     out += [make_rebind(ka, to) for ka in (0, 1, 2)]
     out.append(make_catalogue(to))
+    out.append(make_repeats(to))
+    out.append(make_late(to))
     return out
